@@ -28,10 +28,8 @@ theorem backupTree_id (H : List Node → Id) (hasTree : Id → Bool) (s : TA) (p
     (s.backupTree H hasTree p).2 = H s.tree ∧ (s.backupTree H hasTree p).1.tree = s.tree ∧
       (s.backupTree H hasTree p).1.stack = s.stack := by
   unfold TA.backupTree
-  cases p with
-  | matched a => by_cases h : H s.tree = a <;> simp [h] <;> split <;> simp
-  | notFound => simp only []; split <;> simp
-  | notMatched => simp only []; split <;> simp
+  simp only []
+  split <;> simp
 
 theorem add_same (H : List Node → Id) (h1 h2 : Id → Bool) (s1 s2 : TA) (a b : TItem)
     (hs : TASame s1 s2) (hab : sameNode a b) :
